@@ -213,6 +213,9 @@ func Triggers(p *Package) []Trigger {
 					dropAnyMembers(a.Ret, map[*StructDecl]bool{})
 				})
 			}
+			if a.Kind == "prop" && len(a.Params) == 1 && isAny(a.Params[0].T) {
+				add("prop_any_roundtrip", where+" is of type any", func() { a.Params[0].T = Sc("str") })
+			}
 			if a.Kind == "prop" && len(a.Params) == 1 && mentionsAny(a.Params[0].T) {
 				add("prop_any_value_shadow", where+" has a dynamic value in its type expression", func() {
 					a.Params[0].T.Walk(func(x *IType) {
@@ -239,6 +242,81 @@ func Triggers(p *Package) []Trigger {
 					add("ident_receiver_shadow", where+" parameter p", rename)
 				case a.Kind == "fn" && inList(x.Name, generatedLocals), a.Kind != "fn" && inList(x.Name, generatedLocalsSig):
 					add("ident_generated_collision", where+" parameter "+x.Name, rename)
+				}
+			}
+		}
+	}
+	// a method with the name and the parameter types of one of the generic object methods
+	generic := map[string]string{"property": "any", "setProperty": "any,any", "properties": "", "terminate": "uint32", "metaObject": "uint32"}
+	for _, it := range p.Ifaces {
+		for ai, a := range it.Actions {
+			a, ai := a, ai
+			if want, ok := generic[a.Name]; ok && a.Kind == "fn" {
+				var ts []string
+				for _, x := range a.Params {
+					ts = append(ts, x.T.IDL())
+				}
+				if strings.Join(ts, ",") == want {
+					add("method_shadows_generic", fmt.Sprintf("fn %s.%s(%s)", it.Name, a.Name, want), func() { a.Name = fmt.Sprintf("zzg%d", ai) })
+				}
+			}
+		}
+	}
+	// a reference to an interface whose name is not title-cased
+	lower := map[*Iface]bool{}
+	note := func(t *IType) {
+		t.Walk(func(x *IType) {
+			if x.K == TObj {
+				if c := x.Obj.Name[0]; c >= 'a' && c <= 'z' && !lower[x.Obj] {
+					lower[x.Obj] = true
+					o := x.Obj
+					add("objref_lowercase_iface", "reference to interface "+o.Name, func() { o.Name = strings.ToUpper(o.Name[:1]) + o.Name[1:] })
+				}
+			}
+		})
+	}
+	for _, s := range p.Structs {
+		for _, f := range s.Fields {
+			note(f.T)
+		}
+	}
+	for _, it := range p.Ifaces {
+		for _, a := range it.Actions {
+			for _, x := range a.Params {
+				note(x.T)
+			}
+			note(a.Ret)
+		}
+	}
+	// object references outside the places the templates support
+	dropObj := func(t *IType) func() {
+		return func() {
+			t.Walk(func(x *IType) {
+				if x.K == TObj {
+					x.K, x.Scalar, x.Obj = TScalar, "int32", nil
+				}
+			})
+		}
+	}
+	for _, s := range p.Structs {
+		for _, f := range s.Fields {
+			if f.T.MentionsObj() {
+				add("objref_in_struct", "field "+f.Name+" of struct "+s.Name+" is an object", dropObj(f.T))
+			}
+		}
+	}
+	for _, it := range p.Ifaces {
+		for _, a := range it.Actions {
+			for _, x := range a.Params {
+				where := fmt.Sprintf("%s %s.%s parameter %s", a.Kind, it.Name, a.Name, x.Name)
+				switch {
+				case a.Kind == "prop" && x.T.MentionsObj():
+					add("objref_property", where+" is an object", dropObj(x.T))
+				case a.Kind == "sig" && len(a.Params) != 1 && x.T.MentionsObj():
+					add("objref_in_struct", where+" is an object in a multi-parameter signal", dropObj(x.T))
+				case a.Kind == "fn" && x.T.K == TScalar && x.T.Scalar == "obj":
+					t := x.T
+					add("obj_plain_param", where+" is a plain obj", func() { t.Scalar = "int32" })
 				}
 			}
 		}
